@@ -87,6 +87,7 @@ func stressDisk(d disk.Disk, n, k, m int, hot int, singleWriter bool, r *rand.Ra
 			defer wg.Done()
 			rr := rand.New(rand.NewPCG(seeds[g], 77))
 			buf := make([]byte, 4096)
+			lastW := map[int]int{}
 			<-start
 			for i := 0; i < m; i++ {
 				a := rr.IntN(hot)
@@ -113,7 +114,14 @@ func stressDisk(d disk.Disk, n, k, m int, hot int, singleWriter bool, r *rand.Ra
 						}
 					}
 					if op == "write" {
-						v = int(atomic.AddInt64(nextVal, 1))
+						if lv, ok := lastW[a]; ok && rr.IntN(5) == 0 {
+							v = lv // the very block this client wrote there last (often what the address still holds)
+						} else if !ok && rr.IntN(4) == 0 {
+							v = 0 // the zero block, over an address this client has not written yet
+						} else {
+							v = int(atomic.AddInt64(nextVal, 1))
+						}
+						lastW[a] = v
 					}
 				case x < 95:
 					op = "size"
@@ -373,18 +381,22 @@ func C10(c *ev.Ctx) {
 			go func() { h = stressDisk(d, n, k, m, hot, file, rr, &nextVal); finished <- true }()
 			select {
 			case <-finished:
-			case <-time.After(3 * time.Minute):
+			case <-time.After(90 * time.Second):
 				buf := make([]byte, 1<<20)
 				buf = buf[:runtime.Stack(buf, true)]
 				hung = true
 				if hangInside(string(buf), "machine/disk") {
 					c.Violation("hang-"+name, fmt.Sprintf("the concurrent driver on %s (k=%d clients, n=%d blocks) never finished: a goroutine is blocked for good inside the library (deadlock)\n%s", name, k, n, tlc.Tail(string(buf), 60)), map[string]string{"goroutines.txt": string(buf)})
 				} else {
-					c.Inconclusive("the concurrent driver did not finish in 3 minutes")
+					c.Inconclusive("the concurrent driver did not finish in 90 s")
 				}
 				return
 			}
-			d.Close()
+			if catchPanic(func() { d.Close() }) {
+				c.Violation("close-panics-"+name, fmt.Sprintf("Close of a %s disk that is open and was only used through Read/ReadTo/Write/Size panics (k=%d clients, n=%d)", name, k, n), nil)
+				hung = true
+				return
+			}
 			seg[len(evs)] = fmt.Sprintf("%s k=%d m=%d n=%d", name, k, m, n)
 			evs = append(evs, map[string]any{"ev": "reset", "n": n})
 			evs = append(evs, h...)
@@ -425,6 +437,29 @@ func C10(c *ev.Ctx) {
 	if hung {
 		return
 	}
+	// two disks alive at once, each with its own clients: a disk is a function of the calls made on IT
+	for _, file := range []bool{false, true} {
+		pevs, pseg, pn, ok := pairRounds(c, file, imgDir, c.Pick(40, 400), rr, &nextVal)
+		if !ok {
+			return
+		}
+		if file {
+			for at, d := range pseg {
+				fileSeg[len(fileEvs)+at] = d
+			}
+			fileEvs = append(fileEvs, pevs...)
+			fileOv += overlapScore(pevs)
+			fileN += pn
+		} else {
+			for at, d := range pseg {
+				memSeg[len(memEvs)+at] = d
+			}
+			memEvs = append(memEvs, pevs...)
+			memOv += overlapScore(pevs)
+			memN += pn
+		}
+	}
+	c.Set("two_disk_rounds", c.Pick(40, 400)*2)
 	{
 		bevs, bseg, bn := fileBursts(c, imgDir, &nextVal)
 		for at, d := range bseg {
@@ -499,6 +534,82 @@ func C10(c *ev.Ctx) {
 
 	// (4) data races: the same stress driver under the race detector
 	raceChild(c, "race-disk", "machine/disk")
+}
+
+// pairRounds: in every round two disks of the same size exist at once and are used at the same time by disjoint
+// sets of clients; each disk's history is validated on its own, so anything one disk shows of the other's writes is
+// rejected. In-memory disks are created after another disk was closed (twice: Close of a MemDisk is a no-op) and
+// file-backed ones with garbage collections in between (descriptor lifetime, recycled descriptor numbers).
+func pairRounds(c *ev.Ctx, file bool, imgDir string, rounds int, rr *rand.Rand, nextVal *int64) ([]map[string]any, map[int]string, int, bool) {
+	var evs []map[string]any
+	seg := map[int]string{}
+	count := 0
+	name := "mem"
+	if file {
+		name = "file"
+	}
+	gc := func() {
+		runtime.GC()
+		time.Sleep(2 * time.Millisecond)
+		runtime.GC()
+	}
+	for round := 0; round < rounds; round++ {
+		n := 2 + rr.IntN(3)
+		m := 8 + rr.IntN(16)
+		var ds [2]disk.Disk
+		if !file {
+			old := disk.NewMemDisk(uint64(n))
+			_ = catchPanic(func() { old.Write(0, pattern(int(atomic.AddInt64(nextVal, 1)))) })
+			_ = catchPanic(func() { old.Close() })
+			_ = catchPanic(func() { old.Close() })
+		}
+		for i := range ds {
+			if file {
+				p := filepath.Join(imgDir, fmt.Sprintf("pair%d.img", i))
+				_ = os.Remove(p)
+				fd, err := disk.NewFileDisk(p, uint64(n))
+				if err != nil {
+					c.Inconclusive("NewFileDisk: %v", err)
+					return nil, nil, 0, false
+				}
+				ds[i] = fd
+				gc()
+			} else {
+				ds[i] = disk.NewMemDisk(uint64(n))
+			}
+		}
+		var hs [2][]map[string]any
+		rs := [2]*rand.Rand{rand.New(rand.NewPCG(rr.Uint64(), 1)), rand.New(rand.NewPCG(rr.Uint64(), 2))}
+		finished := make(chan bool, 2)
+		for i := range ds {
+			go func(i int) { hs[i] = stressDisk(ds[i], n, 2, m, n, file, rs[i], nextVal); finished <- true }(i)
+		}
+		for i := 0; i < 2; i++ {
+			select {
+			case <-finished:
+			case <-time.After(90 * time.Second):
+				buf := make([]byte, 1<<20)
+				buf = buf[:runtime.Stack(buf, true)]
+				if hangInside(string(buf), "machine/disk") {
+					c.Violation("hang-"+name, fmt.Sprintf("two %s disks used at once (2 clients each, n=%d blocks): a goroutine is blocked for good inside the library (deadlock)\n%s", name, n, tlc.Tail(string(buf), 60)), map[string]string{"goroutines.txt": string(buf)})
+				} else {
+					c.Inconclusive("the two-disk driver did not finish in 90 s")
+				}
+				return nil, nil, 0, false
+			}
+		}
+		for i := range ds {
+			if catchPanic(func() { ds[i].Close() }) {
+				c.Violation("close-panics-"+name, fmt.Sprintf("Close of a %s disk that is open and was only used through Read/ReadTo/Write/Size panics (two disks alive at once, n=%d): something other than its owner closed or replaced its resources", name, n), nil)
+				return nil, nil, 0, false
+			}
+			seg[len(evs)] = fmt.Sprintf("%s two-disks-at-once disk=%d k=2 m=%d n=%d", name, i, m, n)
+			evs = append(evs, map[string]any{"ev": "reset", "n": n})
+			evs = append(evs, hs[i]...)
+			count++
+		}
+	}
+	return evs, seg, count, true
 }
 
 // raceChild runs a child driver of the -race build of the harness and judges its report.
